@@ -11,7 +11,7 @@ const SPEC: Spec = Spec {
         "refint schoolbook multiplication is trusted; cross-checked against Python int on a transcript slice",
         "x86_64 / 64-bit digits only",
     ],
-    bounds_quick: "M1 Dense(S5,3)^2 + Dense(S8+,2)^2; M2 all 1<=lx<=ly<=100 x 12x12 patterns + squares; M3 lx in {255..259,385,770} x 8 length relations x 12x12 patterns; M4 low/inner zero digits; M5 BigInt sign pairs and scalar forms on the pool, plus the *= / by-value forms on operands with spare buffer capacity for the whole product (also on every M6 length pair); M6 dense LCG digits for every 1<=lx<=ly<=72 x 2x2 members; M7 pool x every 2^k-1, 2^k, 2^k+1 (k<128) as scalar of every width and as big operand",
+    bounds_quick: "M1 Dense(S5,3)^2 + Dense(S8+,2)^2 + Dense(S16,2)^2 (16-letter half-digit alphabet); M2 all 1<=lx<=ly<=100 x 12x12 patterns + squares; M3 lx in {255..259,385,770} x 8 length relations x 12x12 patterns; M4 low/inner zero digits; M5 BigInt sign pairs and scalar forms on the pool, plus the *= / by-value forms on operands with spare buffer capacity for the whole product (also on every M6 length pair); M6 dense LCG digits for every 1<=lx<=ly<=72 x 2x2 members; M7 pool x every 2^k-1, 2^k, 2^k+1 (k<128) as scalar of every width and as big operand",
     bounds_thorough: "M1; M2 all 1<=lx<=ly<=400 x 12x12 patterns + squares; M3 lx in {255..262,300,383..386,511..514,767..772,1023..1026,1537..1539,2048,2305,2309..2311} x 8 length relations x 12x12 patterns; M4; M5; M6 up to 160 digits x 6x6 family members; M7",
     hang_secs: 120,
     probes: Some(probes),
@@ -207,7 +207,7 @@ fn body(ctx: &mut Ctx) {
     let tier = ctx.tier;
     ctx.set_transcript_every(tier.pick(7, 101));
     // M1: dense small operands
-    for (name, set) in [("M1a", alpha::dense(&alpha::SIGMA5, 3)), ("M1b", alpha::dense(&[0, 1, 2, 1 << 32, alpha::H - 1, alpha::H, alpha::H + 1, alpha::M - 1, alpha::M], 2))] {
+    for (name, set) in [("M1a", alpha::dense(&alpha::SIGMA5, 3)), ("M1b", alpha::dense(&[0, 1, 2, 1 << 32, alpha::H - 1, alpha::H, alpha::H + 1, alpha::M - 1, alpha::M], 2)), ("M1c", alpha::dense(&alpha::SIGMA16, 2))] {
         if ctx.space(name) {
             let us: Vec<BigUint> = set.iter().map(|d| bu(d)).collect();
             for i in 0..set.len() {
